@@ -437,10 +437,26 @@ pub fn run(ctx: &Ctx) {
     });
     ctx.part_done("degenerate-extreme-sizes", true, json!("zero-width / zero-height pages with the other dimension up to u32::MAX"));
 
+    // pages of megabytes (heights beyond 2^21 and 2^24, where narrowed or floating-point index arithmetic goes wrong): a
+    // light oracle probes ~130 pixels each - the pixel reads back, exactly its bit changed, nothing else in the page did
+    let giants: [(u32, u32); 4] = [(3, 2_800_000), (2, 16_777_217), (16_777_217, 2), (1, 33_554_439)];
+    par_range(ctx, "giant-pages", giants.len() as u64, |i, st| {
+        let (w, h) = giants[i as usize];
+        crate::props::c07::check_giant(w, h, st).map_err(|m| (json!({"giant": [w, h]}), m))?;
+        st.nontrivial_enumerated(1);
+        Ok(())
+    });
+    ctx.part_done("giant-pages", true, json!({"sizes": giants, "what": "set/get of ~130 pixels per page against the closed-form bit position, whole page compared"}));
+
     run_generated(ctx, "sequences", ctx.tier.pick(200_000, 2_000_000), move || case_strategy(bw, bh), |c, st| check_page(c, st));
 }
 
 pub fn replay(_part: &str, case: &Value) -> Result<(), String> {
+    if let Some(g) = case.get("giant").and_then(|v| v.as_array()) {
+        let w = g.first().and_then(|v| v.as_u64()).unwrap_or(1) as u32;
+        let h = g.get(1).and_then(|v| v.as_u64()).unwrap_or(1) as u32;
+        return crate::props::c07::check_giant(w, h, &mut Stats::new());
+    }
     let c: PageCase = serde_json::from_value(case.clone()).map_err(|e| format!("bad case: {e}"))?;
     check_page(&c, &mut Stats::new())
 }
